@@ -530,6 +530,15 @@ def run(ctx):
     sx = [bridge.to_sx(e) for e in uniq]
     ax = ctx.driver.call("extract", [[s] for s in sx])
     ar = ctx.driver.call("remove", [[s] for s in sx])
+    # extraction cross-check: a sample of the driver's answers re-evaluated inside Coq by vm_compute
+    import core
+    withmd = [i for i, e in enumerate(uniq) if has_md(e)]
+    order = withmd + [i for i in range(len(uniq)) if i not in set(withmd)]
+    core.coq_crosscheck(ctx, ID, "From FA.Base Require Import PyAst Value Traverse.\nFrom FA.Model Require Import MetaData.",
+                        core.xcheck_sample([uniq[i] for i in order], [ar[i] for i in order],
+                                           lambda e: "remove_empty %s" % bridge.to_coq(e),
+                                           lambda a: ("Some %s" % bridge.sx_to_coq(bridge.parse_sx(a[3:]))) if a.startswith("OK ")
+                                           else ("None" if a == "NONE" else None)))
     for e, m, a1, a2 in zip(uniq, inm, ax, ar):
         if has_md(e):
             ctx.distinct.add(dump(e))
